@@ -338,7 +338,7 @@ def st(ctx):
         # can change what eq() answers: outside the scope of this rule
         if (b.file or "").startswith("src/explain/"):
             continue
-        errs, (sites, d) = spaces.check_function(crate, b, ins)
+        errs, (sites, d) = spaces.check_function(crate, mir.accessor_view(crate, b), ins)
         tot += sites
         dec += d
         if sites:
